@@ -30,7 +30,7 @@ func matrix(r *ev.Run) {
 		under   []string
 	}
 	ops := []string{"remove:hw1", "remove:hw2", "remove:ukey", "remove:ucert", "remove:unknown", "remove-all", "add:key", "add:cert", "add-hard-cert:new", "add-hard-cert:hw1-again",
-		"sign:hw1", "sign:ukey", "sign:ucert", "list", "signers", "lock-again", "unlock-wrong", "unlock-empty", "close", "nothing"}
+		"sign:hw1", "sign:ukey", "sign:ucert", "list", "signers", "lock-again", "unlock-wrong", "unlock-wrong-seven-times", "unlock-empty", "close", "nothing"}
 	idx := 0
 	for _, noUp := range []bool{false, true} {
 		for _, op := range ops {
@@ -174,6 +174,14 @@ func matrix(r *ev.Run) {
 							err = s.Lock([]byte("other"))
 						case "unlock-wrong":
 							err = s.Unlock([]byte("not the passphrase"))
+						case "unlock-wrong-seven-times":
+							for k := 0; k < 7; k++ {
+								if e := s.Unlock([]byte(fmt.Sprintf("guess %d", k))); e == nil {
+									return false, fmt.Sprintf("wrong passphrase number %d accepted", k)
+								} else {
+									err = e
+								}
+							}
 						case "unlock-empty":
 							err = s.Unlock(nil)
 						case "close":
